@@ -317,6 +317,39 @@ func CtxErrNoYield(ctx context.Context) error {
 	return parentErrNoYield(ctx)
 }
 
+// AfterFunc replaces context.AfterFunc: f runs in a task of its own once ctx is done, unless stop was called
+// first (stop reports whether it prevented the call).
+func AfterFunc(ctx context.Context, f func()) (stop func() bool) {
+	if S == nil {
+		return context.AfterFunc(ctx, f)
+	}
+	state := 0 // 0 waiting, 1 started, 2 stopped
+	if ctx.Done() == nil {
+		return func() bool {
+			if state == 0 {
+				state = 2
+				return true
+			}
+			return false
+		}
+	}
+	stopped := NewChan[struct{}]()
+	GoNamed("afterfunc", func() {
+		if Select(false, RecvCase(Wrap(ctx.Done())), RecvCase(stopped)) == 0 && state == 0 {
+			state = 1
+			f()
+		}
+	})
+	return func() bool {
+		if state == 0 {
+			state = 2
+			CloseIfOpen(stopped)
+			return true
+		}
+		return false
+	}
+}
+
 // SetQuiet switches exploration off (on) for the part of an execution that follows: while quiet, every
 // decision takes the default alternative (the running task carries on), no branch is opened and states are
 // neither recorded nor pruned. A harness uses it to bring the system into a non-initial state along ONE
